@@ -125,6 +125,31 @@ fn main() {
         }
         return;
     }
+    if args.len() >= 4 && args[1] == "--eval-batch" {
+        // one input per stdin line ("name=value name=value ..."); prints "R <line index> <violated ensures|->" (replay side, real code)
+        std::panic::set_hook(Box::new(|_| {}));
+        let p = match progs.iter().find(|p| p.name == args[2]) { Some(p) => p, None => { println!("UNKNOWN-PROGRAM"); return; } };
+        let f = if args[3] == "f32" { p.run_f32 } else { p.run_f64 };
+        let f = match f { Some(f) => f, None => { println!("NO-CONCRETE-INSTANTIATION"); return; } };
+        use std::io::BufRead;
+        for (i, line) in std::io::stdin().lock().lines().enumerate() {
+            let line = match line { Ok(l) => l, Err(_) => break };
+            FRUN.with(|r| {
+                let mut r = r.borrow_mut();
+                *r = Default::default();
+                for a in line.split_whitespace() { if let Some((k, v)) = a.split_once('=') { if let Ok(v) = v.parse::<f64>() { r.inputs.insert(k.to_string(), v); } } }
+            });
+            let res = std::panic::catch_unwind(f);
+            FRUN.with(|r| {
+                let r = r.borrow();
+                if r.assume_failed || !r.missing.is_empty() { println!("R {} skip", i); return; }
+                let mut bad: Vec<String> = r.results.iter().filter(|(_, ok)| !*ok).map(|(n, _)| n.clone()).collect();
+                if res.is_err() { bad.push("PANIC".to_string()); }
+                println!("R {} {}", i, if bad.is_empty() { "-".to_string() } else { bad.join(",") });
+            });
+        }
+        return;
+    }
     if args.len() >= 4 && args[1] == "--eval" {
         std::panic::set_hook(Box::new(|_| {}));
         for p in &progs { if p.name == args[2] { eval(p, &args[3], &args[4..]); return; } }
